@@ -12,6 +12,7 @@ import (
 	"sort"
 	"strings"
 	"testing"
+	"strconv"
 	"time"
 
 	"github.com/jcmoraisjr/haproxy-ingress/pkg/acme"
@@ -206,7 +207,7 @@ func execC17Sign(c C17SignCase) *Failure {
 
 // ---------- part 2: the work queue follows the cluster ----------
 
-var c17Kinds = []string{world.KIngress, world.KIngress, world.KIngress, world.KIngress, world.KSecret, world.KEndpoints}
+var c17Kinds = []string{world.KIngress, world.KIngress, world.KIngress, world.KIngress, world.KIngress, world.KSecret, world.KEndpoints, world.KConfigMap}
 
 func c17Profile() Profile {
 	p := defaultProfile()
@@ -217,6 +218,10 @@ func c17Profile() Profile {
 	p.MissingRefs = true
 	p.Ann = []annChoice{{"cert-signer", []string{"acme", "acme", "Acme", "none"}}, {"balance-algorithm", []string{"leastconn"}}}
 	p.SvcAnn = nil
+	// the renewal window is a global option: the signer must work with the current one
+	p.GlobalCM = true
+	p.GlobalKeys = []annChoice{{"acme-expiring", []string{"10", "45", "30"}}}
+	p.GlobalAlways = map[string]string{"acme-endpoint": "v2-staging", "acme-emails": "admin@example.local", "acme-terms-agreed": "true"}
 	return p
 }
 
@@ -338,6 +343,19 @@ func c17Step(c HistCase, s *ctlsim.Sim, batch int, in ctlsim.StepInfo, prev map[
 				if !want[k] {
 					expect = append(expect, "remove "+k)
 				}
+			}
+		}
+		if !c.Params.NotLeader {
+			// the leader configures the signer on every update: the renewal window is the one of the current global config
+			// (the window is only parsed when the account is configured: endpoint, emails, terms agreed)
+			days := 30
+			cm := s.World.Get(world.KConfigMap, world.GlobalCM)
+			if cm != nil && cm.Data["acme-expiring"] != "" {
+				days, _ = strconv.Atoi(cm.Data["acme-expiring"])
+			}
+			configured := cm != nil && cm.Data["acme-endpoint"] != "" && cm.Data["acme-emails"] != "" && cm.Data["acme-terms-agreed"] == "true"
+			if got, n := s.Signer.Expiring(); configured && n > 0 && got != time.Duration(days)*24*time.Hour {
+				return failf("C17:stale-renewal-window", "after batch %d: the signer works with a renewal window of %v, the global config asks for %d days\nhistory:\n%s", batch, got, days, describeBatches(c))
 			}
 		}
 		got := append([]string{}, log...)
